@@ -1424,7 +1424,16 @@ def check_C13(A, R, tier):
             continue
         seen_w.add((w["fn"], w["bb"]))
         ok, why = forall_loop(A, w)
-        R.ob("R13.3", "%s | every upstream of the finished job is considered (no early exit)" % short(w["fn"]), ok, detail=why, site=A.site(w))
+        if ok:
+            # ... and none is filtered out by anything but its own state: a filter in front of the scan that can drop an upstream
+            # in the state the offer is made from (e.g. by looking at an edge flag) makes the scan incomplete
+            sym = w["key"][0]
+            run_w = w.get("_run")
+            if isinstance(sym, tuple) and sym[0] == "b" and run_w is not None:
+                frs = [f for f in run_w.by_kind("filter_result") if f.get("fid") == sym[1] and f["bb"] == sym[2]]
+                if any(f["may_false"] for f in frs):
+                    ok, why = False, "the upstreams are filtered before they are considered: one that waits for this downstream can be passed over"
+        R.ob("R13.3", "%s | every upstream of the finished job is considered (no early exit, not filtered)" % short(w["fn"]), ok, detail=why, site=A.site(w))
     R.explanation = ("Safety: the only insertion into the cleanup set is evaluated with all direct downstreams of the Ephemeral in "
                      "each of the %d concrete states (uniform trace partition; sound for mixed states because the downstream loop only "
                      "lowers constant flags) and is reachable only when they finished without failure; the offer state is entered only "
@@ -1645,7 +1654,11 @@ def check_C10(A, R, tier):
                                                              default_states=fin(A.L.jobstate, [fs_]), cell_init={"alljobs": fin(A.L.jobstate, [fs_])}))
             st = [v for v in r.by_kind("store_self") if v["proj"][:1] == (("f", A.L.start_field),)]
             okst = okst and bool(st) and all(v["value"][0] == "fin" and set(v["value"][2]) == {acc[0]} for v in st)
-        R.ob("R10.3", "is_finished advances the start status to the one new_history accepts when all jobs are finished", okst)
+            # ... on every path: whatever else the evaluator remembers, with all jobs finished the answer is 'true'
+            okst = okst and r.ret is not None and r.ret[0] == "fin" and set(r.ret[2]) == {(1,)}
+        R.ob("R10.3", "is_finished advances the start status to the one new_history accepts when all jobs are finished (on every path)", okst,
+             detail="with every job finished is_finished() can still answer false / leave the start status alone (e.g. a cached answer): "
+                    "new_history() then refuses")
     # R10.4: the history can be assembled for every way a job without output can end (aborted jobs included)
     from rules_compare import rule_history_after_any_outcome
     rule_history_after_any_outcome(A, R, "R10.4")
